@@ -60,18 +60,34 @@ theorem walk_ticks_needs_walkable :
     walkTicks (.branch [.singleton, .singleton, .singleton, .singleton]) ≠
       walkAnnounced (.branch [.singleton, .singleton, .singleton, .singleton]) := by decide
 
-/-- **reset_ticks.** With `workers ≥ 1`, the pool-reset phase delivers exactly the announced
-    `num_blocks()` ticks **iff** no empty pool level precedes a non-empty one: the clamped `workers`
-    (0 for an empty level) is what `reset` passes down the chain. -/
+/-- **reset_ticks.** With `workers ≥ 1`, for EVERY pool chain the pool-reset phase delivers exactly
+    the announced `num_blocks()` ticks (the clamp is applied to a local copy; every level is reset
+    with the caller's worker count). -/
 theorem reset_ticks (w : Nat) (hw : 1 ≤ w) (ps : List PoolBlocks) :
-    resetTicks w ps = numBlocks ps ↔ resetGood ps = true := by
-  induction ps generalizing w with
-  | nil => simp [resetTicks, numBlocks, resetGood]
+    resetTicks w ps = numBlocks ps := by
+  induction ps with
+  | nil => rfl
   | cons p ps ih =>
-    simp only [resetTicks, numBlocks, resetGood]
+    simp only [resetTicks, numBlocks, ih]
+    by_cases hb : p.blocks = 0
+    · rw [(clamp_eq_zero_iff w p hw).2 hb, poolTicks_zero, hb]
+    · have : 1 ≤ clamp w p := by
+        have := (clamp_eq_zero_iff w p hw).not.2 hb
+        omega
+      rw [poolTicks_pos _ _ this]
+
+/-- **reset_ticks_old_iff** (about the PRE-FIX formula `resetTicksOld`, kept as the record of the
+    defect): passing the clamped `workers` down made the phase complete **iff** no empty pool level
+    preceded a non-empty one. -/
+theorem reset_ticks_old_iff (w : Nat) (hw : 1 ≤ w) (ps : List PoolBlocks) :
+    resetTicksOld w ps = numBlocks ps ↔ resetGood ps = true := by
+  induction ps generalizing w with
+  | nil => simp [resetTicksOld, numBlocks, resetGood]
+  | cons p ps ih =>
+    simp only [resetTicksOld, numBlocks, resetGood]
     by_cases hb : p.blocks = 0
     · have hc := (clamp_eq_zero_iff w p hw).2 hb
-      simp only [hc, poolTicks_zero, resetTicks_zero, hb, if_true, beq_iff_eq]
+      simp only [hc, poolTicks_zero, resetTicksOld_zero, hb, if_true, beq_iff_eq]
       omega
     · have hc : 1 ≤ clamp w p := by
         have := (clamp_eq_zero_iff w p hw).not.2 hb
@@ -80,29 +96,11 @@ theorem reset_ticks (w : Nat) (hw : 1 ≤ w) (ps : List PoolBlocks) :
       rw [← ih (clamp w p) hc]
       omega
 
-/-- the code as it stands loses ticks: tree pool empty (single-cell root: the root is `new T`),
-    leaf pools non-empty, 8 workers -/
+/-- the pre-fix formula lost ticks: tree pool empty (single-cell root: the root is `new T`), leaf
+    pools non-empty, 8 workers; the current one does not -/
 theorem reset_ticks_defect :
-    resetTicks 8 [⟨0, 0⟩, ⟨0, 1⟩, ⟨0, 1⟩] = 0 ∧ numBlocks [⟨0, 0⟩, ⟨0, 1⟩, ⟨0, 1⟩] = 2 := by decide
-
-/-- **reset_ticks_repaired.** Clamping a local copy (passing the caller's `workers` down) makes
-    the phase complete for every chain. -/
-theorem reset_ticks_repaired (w : Nat) (hw : 1 ≤ w) (ps : List PoolBlocks) :
-    resetTicksFixed w ps = numBlocks ps := by
-  induction ps with
-  | nil => rfl
-  | cons p ps ih =>
-    simp only [resetTicksFixed, numBlocks, ih]
-    by_cases hb : p.blocks = 0
-    · rw [(clamp_eq_zero_iff w p hw).2 hb, poolTicks_zero, hb]
-    · have : 1 ≤ clamp w p := by
-        have := (clamp_eq_zero_iff w p hw).not.2 hb
-        omega
-      rw [poolTicks_pos _ _ this]
-
-/-- never more ticks than announced (so the fraction stays ≤ 1 even with the defect) -/
-theorem reset_ticks_le (w : Nat) (ps : List PoolBlocks) : resetTicks w ps ≤ numBlocks ps :=
-  resetTicks_le w ps
+    resetTicksOld 8 [⟨0, 0⟩, ⟨0, 1⟩, ⟨0, 1⟩] = 0 ∧ numBlocks [⟨0, 0⟩, ⟨0, 1⟩, ⟨0, 1⟩] = 2 ∧
+    resetTicks 8 [⟨0, 0⟩, ⟨0, 1⟩, ⟨0, 1⟩] = 2 := by decide
 
 section field
 variable {K : Type} [Field K] [LinearOrder K] [IsStrictOrderedRing K]
@@ -225,7 +223,7 @@ example : wf 2 2 (.branch [.terminal, .branch [.leaf, .leaf, .leaf, .leaf], .ter
 example : announced 3 3 = 585 := by decide
 example : walkable 2 (.branch [.cell, .singleton, .singleton, .branch [.cell, .cell, .singleton, .cell]])
     = true := by decide
-example : resetGood [⟨3, 1⟩, ⟨0, 1⟩, ⟨0, 0⟩] = true := by decide
+example : numBlocks [⟨3, 1⟩, ⟨0, 1⟩, ⟨0, 0⟩] = 5 := by decide
 example : (1 : Nat) ≤ 8 := by decide
 -- progress_monotone: a tick in phase 1 of 3
 example : ∃ (ps qs : Nat → Phase), (∀ i, i < 3 → (ps i).weight = (qs i).weight) ∧
